@@ -49,6 +49,7 @@ static Prong kind_choice(int kind, int region, const Snapshot& old) {
   if (kind == 1) return 0;
   if (kind == 2) return res != INVALID_PRONG ? res : 0;
   if (kind == 3 || VM_SPEC[region].strategy == ST_SELECTABLE) {          // the index returned by its select()
+    if (!VM_HAS_STUB(region)) return 0;                                    // an anonymous head answers like the default select(): the first sub-state
     VASSERT(C02, g_sel_called[region], "a region resolved by selection consults its select()");
     return g_sel_val[region];
   }
@@ -385,6 +386,18 @@ static void body_substitute_forever(unsigned cfg, int dest, int guard_state, int
   }
 }
 
+// rounds are bounded also when every round is APPROVED and one of its guards asks for yet another transition without vetoing
+static void body_pingpong(unsigned cfg, int a, int b) {
+  CONFIGURED(f, cfg);
+  g_pp_a = a; g_pp_b = b;
+  f.immediateChangeTo((StateID) a);
+  VREACH("ping-pong step finished");
+  VASSERT(C04, g_pp_rounds <= Instance::SUBSTITUTION_LIMIT, "guards are consulted in at most the substitution limit of rounds per step, approved rounds included");
+  VASSERT(C01, inv_config(f), "the configuration is well-formed after the step");
+  VASSERT(C03, inv_monitor(f), "entered states == active states after the step");
+  VASSERT(C04/C01, spec_active(f, a) || spec_active(f, b), "the step ends in one of the requested states");
+}
+
 // ------------------------------------------------------------------------------------------------ C08: save / load / re-save
 #ifdef HFSM2_ENABLE_SERIALIZATION
 using SerialBuffer = Instance::SerialBuffer;
@@ -489,6 +502,7 @@ static void body_history_enter(int redirect_to = 0) {
   Instance a VM_CTOR;
   for (int s = 0; s < VM_NS; ++s) { g_entered[s] = false; g_enter_count[s] = 0; g_exit_count[s] = 0; }
   g_guards_forbidden = false; g_round_cancelled = false;
+  VREACH("activation of a new instance");
   if (redirect_to > 0) {
     // the entry guard of the state the default activation would enter first redirects the activation (a request issued during
     // the initial activation, without a veto): the activation then has a non-empty history, which replayEnter() must reproduce
@@ -519,7 +533,7 @@ static void body_history_enter(int redirect_to = 0) {
 // the answers of rank()/utility() are drawn BEFORE the call so that the documented preconditions can be assumed up front
 static void predraw_answers() {
   for (int s = 1; s < VM_NS; ++s) {
-    g_rank_called[s] = true; g_rank_val[s] = nd_i8(); VASSUME(g_rank_val[s] >= 0 && g_rank_val[s] <= 1);
+    g_rank_called[s] = true; g_rank_val[s] = nd_i8(); VASSUME(g_rank_val[s] >= 0 && g_rank_val[s] <= 1); if (!VM_HAS_RANK(s)) g_rank_val[s] = 0;   // a state that does not override rank() has the default rank
     g_util_called[s] = true; g_util_val[s] = nd_f32(); VASSUME(g_util_val[s] >= 0.0f && g_util_val[s] <= 1000.0f);
   }
 }
@@ -574,7 +588,7 @@ static void body_utilize_nested(int region, int full) {         // utilize(regio
       // utilize(region) resolves every region it enters by utility; changeTo(region) lets each region follow its DECLARED strategy
       if ((full || all_children_leaves(r)) && (!by_change || VM_SPEC[r].strategy == ST_UTILITARIAN)) {
         const int best = spec_best_child(r);
-        VASSERT(C12, best >= 0 && p == VM_SPEC[best].prong, "utilize activates, in the region and in every nested region it enters, the sub-state with the greatest utility (first on ties); a nested region counts head x chosen sub-state, an orthogonal one head x mean");
+        VASSERT(C12/C02, best >= 0 && p == VM_SPEC[best].prong, "utilize activates, in the region and in every nested region it enters, the sub-state with the greatest utility (first on ties); a nested region counts head x chosen sub-state, an orthogonal one head x mean");
       }
     }
   }
@@ -736,6 +750,32 @@ static void body_plan_payload(unsigned cfg, int with_payload) {
   }
 }
 #endif
+#ifdef VM_ORTHO_PLANS
+// a plan owned by an ORTHOGONAL region: sub-states of both prongs report in the same step (1 = succeed, 2 = fail, 0 = silent)
+static void body_plan_ortho(int left, int right) {
+  CONFIGURED(f, 1);                                              // configuration (F: L1, R1)
+  VASSUME(spec_active(f, 4) && spec_active(f, 7));
+  { auto plan = f.plan((RegionID) VM_PLAN_REGION); VASSUME(plan.change((StateID) 4, (StateID) 5)); VASSUME(plan.change((StateID) 7, (StateID) 8)); }      // L1 -> L2, R1 -> R2
+  g_actor = 4; g_action = left; g_actor2 = 7; g_action2 = right; g_issuer = -1; g_issuer2 = -1;
+  f.update();
+  VASSERT(C01, inv_config(f) && inv_quiescent(f), "the configuration is well-formed after the step");
+  const bool any_fail = left == 2 || right == 2, any_succ = left == 1 || right == 1;
+  if (g_round_cancelled) return;
+  VREACH("orthogonal prongs reported");
+  if (any_fail) {
+    VASSERT(C06, g_plan_failed[VM_PLAN_HEAD] == 1 && g_plan_succeeded[VM_PLAN_HEAD] == 0, "if a sub-state fails the head receives planFailed (once), whatever its orthogonal siblings report");
+    VASSERT(C06, f.previousTransitions().count() == 0, "no task is executed in a step in which a sub-state of the region failed");
+  } else if (any_succ) {
+    VASSERT(C06, g_plan_failed[VM_PLAN_HEAD] == 0 && g_plan_succeeded[VM_PLAN_HEAD] == 0, "while tasks remain the head receives no plan notification");
+    VASSERT(C06, f.previousTransitions().count() == (unsigned) ((left == 1) + (right == 1)), "every task whose origin succeeded is executed exactly once");
+    if (left == 1)  VASSERT(C06, spec_active(f, 5), "the destination of the left prong's task is active");
+    if (right == 1) VASSERT(C06, spec_active(f, 8), "the destination of the right prong's task is active");
+    if (left != 1)  VASSERT(C06, spec_active(f, 4), "a prong whose sub-state did not report stays where it is");
+    if (right != 1) VASSERT(C06, spec_active(f, 7), "a prong whose sub-state did not report stays where it is");
+  }
+  for (int s = 1; s < VM_NS; ++s) VASSERT(C06, !f._core.planData.tasksFailures.get(s), "failure marks never survive the step");
+}
+#endif
 #ifdef VM_NESTED_PLANS
 // the inner region's plan advances when its sub-state succeeds, whatever the ENCLOSING region's head reports in the same step
 static void body_plan_nested(int outer_mark) {                  // 0: outer head silent, 1: outer head marked succeeded from outside, 2: marked failed
@@ -773,7 +813,8 @@ static void body_payload(int d1, int has1, int d2, int has2) {         // d2 == 
       if (nd_bool()) pt.emplace(Instance::Transition{pd, TransitionType::CHANGE, pv}); else pt.emplace(Instance::Transition{pd, TransitionType::CHANGE});
     }
   }
-  if (has1) f.changeWith((StateID) d1, g_pay_val[0]); else f.changeTo((StateID) d1);
+  if (has1 == 2) f.scheduleWith((StateID) d1, g_pay_val[0]);          // a schedule request with payload, batched with the request that follows
+  else if (has1) f.changeWith((StateID) d1, g_pay_val[0]); else f.changeTo((StateID) d1);
   if (d2) { if (has2) f.changeWith((StateID) d2, g_pay_val[1]); else f.changeTo((StateID) d2); }
   g_issuer = -1; g_issuer2 = -1;
   f.update();
@@ -815,6 +856,14 @@ static void body_logger(int kind, int dest) {
   ARBITRARY_ACTIVE(f);
   Instance g VM_CTOR; copy_configuration(g, f);                   // the same machine without a logger
   f.attachLogger(&g_logger);
+#ifdef VM_UTILITY
+  if (kind == 4 || kind == 5) {                                    // documented preconditions of utilize / randomize on the answers of rank() and utility()
+    predraw_answers();
+    int8_t top = -1; for (int c = dest + 1; c < VM_NS; ++c) if (VM_SPEC[c].parent == dest && g_rank_val[c] > top) top = g_rank_val[c];
+    bool positive = false; for (int c = dest + 1; c < VM_NS; ++c) if (VM_SPEC[c].parent == dest && g_rank_val[c] == top && g_util_val[c] > 0.0f) positive = true;
+    VASSUME(positive);
+  }
+#endif
   Snapshot old; snap(f, old);
   call_immediate(f, kind, dest);
   VASSERT(C16, g_log_transitions == 1 && g_log_last_target == dest && g_log_last_type == kind, "the transition request is reported exactly once with its kind and target");
